@@ -171,51 +171,144 @@ Definition holds09 (c : caseRecv) : bool := holds02 c && produced_variant_ok c.
 Definition nontrivial09 (c : caseRecv) : bool :=
   match rc_ty c with TEnumR _ _ _ => true | _ => false end.
 
-(** ** C17: for an unknown name given directly to a struct receiver (no flatten), the reported
-    suggestion is the first best candidate above the threshold among the addressable names -
-    written as an argmax, not as the implementation's running update. *)
-Definition best_match (sim : string -> string -> N) (u : string) (cands : list string) : option string :=
-  let above := filter (fun c => N.ltb threshold (sim u c)) cands in
-  let best := fold_right N.max 0%N (map (sim u) above) in
-  find (fun c => N.eqb (sim u c) best) above.
+(** ** C17 on the implementation's errors, at every depth: each unknown-field leaf is resolved
+    to the position its location path designates in the receiver's declaration; the names valid
+    at that position are the addressable fields of that level together with those of its flatten
+    members (innermost first - the order in which the parsers consult them) or the non-skipped
+    variants of an enum.  The leaf must name something NOT valid there, and its message must be
+    exactly the one the argmax specification (Spec/C17.v) gives for those candidates - so the
+    suggestion is a valid name of that very position, the best match, above the threshold, and
+    never a name of an enclosing receiver for something rejected deeper. *)
+From DarlingModel Require Import Spec.C17.
 
-Definition unknown_msg (u : string) (s : option string) : string :=
-  match s with
-  | Some x => "Unknown field: `" ++ u ++ "`. Did you mean `" ++ x ++ "`?"
-  | None => "Unknown field: `" ++ u ++ "`"
+Inductive position : Type := PTy (t : ty) | PFields (fs : list (finfo * ty)).
+
+Fixpoint valid_names (t : ty) : list string :=
+  match t with
+  | TStructR _ fs =>
+      ((fix flat (l : list (finfo * ty)) : list string :=
+          match l with
+          | [] => []
+          | (f, ft) :: r => ((if fi_flatten f then valid_names ft else []) ++ flat r)%list
+          end) fs
+       ++ map fi_name (filter addressable (map fst fs)))%list
+  | TEnumR _ _ vs => variant_names vs
+  | TOpt t' | TBox t' | TRes t' | TNewtypeR _ t' => valid_names t'
+  | _ => []
   end.
+
+Definition fields_names (fs : list (finfo * ty)) : list string :=
+  map fi_name (filter addressable (map fst fs)).
+
+Definition pos_names (p : position) : list string :=
+  match p with PTy t => valid_names t | PFields fs => fields_names fs end.
+
+Definition own_field (fs : list (finfo * ty)) (seg : string) : option ty :=
+  option_map snd (find (fun ft => addressable (fst ft) && str_eqb (fi_name (fst ft)) seg) fs).
+
+Fixpoint descend (t : ty) (seg : string) : option position :=
+  match t with
+  | TStructR _ fs =>
+      match own_field fs seg with
+      | Some ft => Some (PTy ft)
+      | None =>
+          (fix flat (l : list (finfo * ty)) : option position :=
+             match l with
+             | [] => None
+             | (f, ft) :: r =>
+                 match (if fi_flatten f then descend ft seg else None) with
+                 | Some p => Some p
+                 | None => flat r
+                 end
+             end) fs
+      end
+  | TEnumR _ _ vs =>
+      match find (fun v : vinfo * list (finfo * ty) => negb (vi_skip (fst v)) && str_eqb (vi_name (fst v)) seg) vs with
+      | Some (vi, fs) =>
+          match vi_style vi, fs with
+          | VsNewtype, (_, ft) :: _ => Some (PTy ft)
+          | _, _ => Some (PFields fs)
+          end
+      | None => None
+      end
+  | TOpt t' | TBox t' | TRes t' | TNewtypeR _ t' => descend t' seg
+  | _ => None
+  end.
+
+Definition descend_pos (p : position) (seg : string) : option position :=
+  match p with
+  | PTy t => descend t seg
+  | PFields fs => option_map PTy (own_field fs seg)
+  end.
+
+Fixpoint split_slash_aux (cur : string) (s : string) : list string :=
+  match s with
+  | EmptyString => [cur]
+  | String c r => if Ascii.eqb c "/"%char then cur :: split_slash_aux EmptyString r
+                  else split_slash_aux (cur ++ String c EmptyString) r
+  end.
+Definition split_slash (s : string) : list string := split_slash_aux EmptyString s.
+
+Fixpoint resolve (p : position) (path : list string) : option position :=
+  match path with
+  | [] => Some p
+  | seg :: r => match descend_pos p (before_bracket seg) with Some q => resolve q r | None => None end
+  end.
+
+(** the name between the first pair of backticks of "Unknown field: `name`..." *)
+Fixpoint until_tick (s : string) : string :=
+  match s with
+  | EmptyString => EmptyString
+  | String c r => if Ascii.eqb c "`"%char then EmptyString else String c (until_tick r)
+  end.
+Definition unknown_prefix : string := "Unknown field: `".
+Definition unknown_name (body : string) : string :=
+  until_tick (substring (String.length unknown_prefix) (String.length body) body).
+
+Definition leaf_ok17 (c : caseRecv) (l : string * option string * option span) : bool :=
+  let '(body, locs, _) := l in
+  if String.prefix unknown_prefix body then
+    let path := match locs with None => [] | Some j => split_slash j end in
+    match resolve (PTy (rc_ty c)) path with
+    | None => true                          (* a position the declaration does not describe (map values, user functions) *)
+    | Some p =>
+        let cands := pos_names p in
+        let u := unknown_name body in
+        negb (existsb (str_eqb u) cands)
+        && str_eqb body (unknown_msg u (if rc_sugg c then best_match (sim_of (rc_sim c)) u cands else None))
+    end
+  else
+    (* a suggestion is attached only to unknown-field errors *)
+    true.
 
 Definition holds17 (c : caseRecv) : bool :=
-  match rc_entry c, rc_ty c, rc_input c, rc_obs c with
-  | EMeta, TStructR ci fs, NList _ _ _ items, CErr o =>
-      let all_fs := map fst fs in
-      if (existsb fi_flatten all_fs || ci_auk ci)%bool then true
-      else
-        let cands := map fi_name (filter (fun f => negb (fi_skip f || fi_flatten f)) all_fs) in
-        let unknown :=
-          filter (fun it => negb (Spec.C01.is_literal it)
-                            && negb (existsb (str_eqb (Spec.C01.item_name it)) cands)) items in
-        let bodies := map (fun l => fst (fst l)) (filter (fun l => match snd (fst l) with None => true | _ => false end)
-                                                           (obs_leaves None None o)) in
-        forallb (fun it =>
-                   let u := Spec.C01.item_name it in
-                   let want := unknown_msg u (if rc_sugg c then best_match (sim_of (rc_sim c)) u cands else None) in
-                   existsb (str_eqb want) bodies) unknown
-        (* and no suggestion ever names something that is not a candidate: every unlocated
-           unknown-field leaf is one of the expected messages *)
-        && forallb (fun b =>
-                      if String.prefix "Unknown field: `" b
-                      then existsb (fun it =>
-                                      let u := Spec.C01.item_name it in
-                                      str_eqb b (unknown_msg u (if rc_sugg c then best_match (sim_of (rc_sim c)) u cands else None)))
-                                   unknown
-                      else true) bodies
-  | _, _, _, _ => true
+  match rc_entry c, rc_obs c with
+  | EMeta, CErr o => forallb (leaf_ok17 c) (obs_leaves None None o)
+  | _, _ => true
   end.
 Definition nontrivial17 (c : caseRecv) : bool :=
-  match rc_entry c, rc_ty c, rc_input c, rc_obs c with
-  | EMeta, TStructR ci fs, NList _ _ _ items, CErr o =>
-      negb (existsb fi_flatten (map fst fs) || ci_auk ci)
-      && existsb (fun l => String.prefix "Unknown field: `" (fst (fst l))) (obs_leaves None None o)
-  | _, _, _, _ => false
+  match rc_entry c, rc_obs c with
+  | EMeta, CErr o =>
+      existsb (fun l : string * option string * option span =>
+                 String.prefix unknown_prefix (fst (fst l))
+                 && match resolve (PTy (rc_ty c)) (match snd (fst l) with None => [] | Some j => split_slash j end) with
+                    | Some _ => true | None => false end)
+              (obs_leaves None None o)
+  | _, _ => false
   end.
+
+(** ** C03 for the built-in scalar targets: every leaf of a rejection is spanned inside the
+    offending item, and inside the value itself when the item has one. *)
+Definition holds03conv (c : caseConv) : bool :=
+  match k_target c, k_entry c with
+  | TAtomicBool, ENested => true
+  | _, ENone => true
+  | _, _ =>
+      match k_obs c with
+      | CErr o => leaf_spans_inside (blame_span (k_input c)) o
+      | _ => true
+      end
+  end.
+Definition nontrivial03conv (c : caseConv) : bool := match k_obs c with CErr _ => true | _ => false end.
+Definition run_conv_counted (holds nontrivial : caseConv -> bool) (cs : list caseConv) : string :=
+  (run_conv holds cs ++ "#" ++ N_to_string (N.of_nat (List.length (filter nontrivial cs))))%string.
